@@ -42,7 +42,7 @@ TAU = 3e-9
 
 def cases(tier, seed):
     out = []
-    reps = 1 if tier == "quick" else 10
+    reps = 1 if tier == "quick" else 120
     for kind in ("positive", "mixed", "complex"):
         for nv in range(1, 5):
             for nh in range(1, 5):
